@@ -276,6 +276,9 @@ impl LogInnerManager {
             &start_index,
             &count
         );
+        if count == 0 {
+            return Ok((data_cursor, msg_count));
+        }
         loop {
             let read_len = file.read(&mut buffer).await?;
             if read_len == 0 {
